@@ -242,15 +242,39 @@ func tourJobs(cx *CheckCtx, name string, obs ObsSpec, maxEdges int) []Job {
 	}
 	var units []unit
 	var budget = maxEdges
-	for _, k1 := range root.order {
-		n1 := root.children[k1]
+	// the model may start with a fixed prefix of events (a chain): one unit owns the chain, the others re-execute it as a
+	// prefix that is not judged again; below the first fork each second-level subtree is one unit
+	var chain []*tourNode
+	fork := root
+	for len(fork.children) == 1 {
+		n := fork.children[fork.order[0]]
+		chain = append(chain, n)
+		fork = n
+	}
+	if len(chain) > 0 {
+		var head, prev *tourNode
+		for _, n := range chain {
+			c := &tourNode{ev: n.ev, exp: n.exp, children: map[string]*tourNode{}}
+			if prev == nil {
+				head = c
+			} else {
+				b, _ := json.Marshal(c.ev)
+				prev.children[string(b)] = c
+				prev.order = append(prev.order, string(b))
+			}
+			prev = c
+		}
+		units = append(units, unit{nil, head})
+	}
+	for _, k1 := range fork.order {
+		n1 := fork.children[k1]
 		if len(n1.children) == 0 {
-			units = append(units, unit{nil, n1})
+			units = append(units, unit{chain, n1})
 			continue
 		}
-		units = append(units, unit{nil, &tourNode{ev: n1.ev, exp: n1.exp, children: map[string]*tourNode{}}})
+		units = append(units, unit{chain, &tourNode{ev: n1.ev, exp: n1.exp, children: map[string]*tourNode{}}})
 		for _, k2 := range n1.order {
-			units = append(units, unit{[]*tourNode{n1}, n1.children[k2]})
+			units = append(units, unit{append(append([]*tourNode{}, chain...), n1), n1.children[k2]})
 		}
 	}
 	_ = budget
